@@ -243,6 +243,7 @@ class Built(object):
         self.calls = []
         self.returns = {}
         self.raises = {}
+        self.out_headers = {}      # method name -> native out header value(s) the function puts on ctx.out_header
         self.services = []
         self.methods = {}
         self.typedefs = {t['name']: t for t in ir['types']}
@@ -265,6 +266,8 @@ class Built(object):
             f = dict(t.get('facets') or {})
             if kind == 'Decimal':
                 f = {k: D(v) for k, v in f.items()}
+            elif kind in ('DateTime', 'Date', 'Time', 'Double'):
+                f = {k: facet_native(kind, v) if k in ('ge', 'gt', 'le', 'lt') else v for k, v in f.items()}
             f.update(kw)
             return cls(**f) if f else cls
         if 'enum' in t:
@@ -326,6 +329,8 @@ class Built(object):
 
         def fn(ctx, *args):
             built.calls.append((name, args, ctx))
+            if name in built.out_headers:
+                ctx.out_header = built.out_headers[name]
             if name in built.raises:
                 raise built.raises[name]
             return built.returns.get(name)
@@ -448,6 +453,22 @@ def inheritance_ir(uid=9100, ns2=True):
     return {'uid': uid, 'tns': ns, 'types': types, 'services': [{'name': 'S', 'methods': [
         M_('p1', [['x', {'ref': 'L1'}]]), M_('p2', [['x', {'ref': 'L2'}], ['k', I()]]), M_('arr', [['xs', {'array': {'ref': 'L2'}}]]),
         M_('hold', [['h', {'ref': 'Hold'}]]), M_('bare2', [['arg', {'ref': 'L2'}]], 'bare')]}]}
+
+
+def facet_native(kind, v):
+    """range facets of the date/time kinds are kept as ISO text in the (JSON) IR"""
+    import datetime
+    if not isinstance(v, str):
+        return v
+    if kind == 'DateTime':
+        return datetime.datetime.fromisoformat(v)
+    if kind == 'Date':
+        return datetime.date.fromisoformat(v)
+    if kind == 'Time':
+        return datetime.time.fromisoformat(v)
+    if kind == 'Double':
+        return float(v)
+    return v
 
 
 def header_names(md, which):
@@ -594,7 +615,7 @@ def gen_value(rng, ir, t, depth=3, top=False, alphabet='xml', subclass_ok=False)
         out = {'__class__': name}
         prev = {}
         for fn, ft in all_fields(ir, name):
-            v = gen_value(rng, ir, ft, depth - 1, alphabet=alphabet)
+            v = gen_value(rng, ir, ft, depth - 1, alphabet=alphabet, subclass_ok=subclass_ok)
             if v is not None:
                 # aliasing: two members of the same declared class may refer to one and the same object
                 if 'ref' in ft and not subclass_ok and ft['ref'] in prev and rng.random() < .3:
@@ -608,7 +629,7 @@ def gen_value(rng, ir, t, depth=3, top=False, alphabet='xml', subclass_ok=False)
         inner = t['array']
         out = []
         for _ in range(n):
-            v = gen_value(rng, ir, inner, depth - 1, top=True, alphabet=alphabet)
+            v = gen_value(rng, ir, inner, depth - 1, top=True, alphabet=alphabet, subclass_ok=subclass_ok)
             if v is None:
                 return out
             out.append(v)
@@ -620,7 +641,7 @@ def gen_value(rng, ir, t, depth=3, top=False, alphabet='xml', subclass_ok=False)
         n = rng.choice([k for k in (0, 1, 2, mx) if t.get('min_occurs', 0) <= k <= mx])
         out = []
         for _ in range(n):
-            v = gen_value(rng, ir, t['seq'], depth - 1, top=True, alphabet=alphabet)
+            v = gen_value(rng, ir, t['seq'], depth - 1, top=True, alphabet=alphabet, subclass_ok=subclass_ok)
             if v is None:
                 break
             out.append(v)
